@@ -49,6 +49,14 @@ func (c Case) String() string {
 }
 
 var paths = []string{"unsharded", "shard1", "shard2slices", "shard2tables"}
+
+// physical tables a statement of each path is executed on (one physical statement each)
+var physTables = map[string][]string{
+	"unsharded":    {"tp"},
+	"shard1":       {"ts_0000"},
+	"shard2slices": {"ts_0000", "ts_0001"},
+	"shard2tables": {"tt_0000", "tt_0001"},
+}
 var protos = []string{"text", "binary"}
 
 // payload length of one text row with one column of s bytes
@@ -76,9 +84,12 @@ type stmtRec struct {
 type rig struct {
 	fakes [2]*fakemysql.Server
 	proxy *e2erig.Proxy
+	nss   []*models.Namespace
 	mu    sync.Mutex
-	stmts map[int][]stmtRec // tag -> physical statements the backends answered
-	tag   int
+	stmts map[int][]stmtRec // tag -> physical statements the backends answered (calibration only)
+	// the handler records statements only while this is set
+	recording bool
+	tag       int
 }
 
 var (
@@ -108,7 +119,9 @@ func (g *rig) handler(c *fakemysql.ConnInfo, sql string) *fakemysql.Result {
 	rec := stmtRec{table: strings.ToLower(mf[1]), n: n, size: size}
 	rec.seed = seedOf(tag, rec.table)
 	g.mu.Lock()
-	g.stmts[tag] = append(g.stmts[tag], rec)
+	if g.recording {
+		g.stmts[tag] = append(g.stmts[tag], rec)
+	}
 	g.mu.Unlock()
 	return &fakemysql.Result{Cols: []string{"v"}, Gen: &fakemysql.Gen{N: n, Size: size, Seed: rec.seed}}
 }
@@ -125,7 +138,7 @@ func userOf(limit int) string { return "u_" + nsName(limit) }
 func newRig() (*rig, error) {
 	g := &rig{stmts: map[int][]stmtRec{}}
 	for i := range g.fakes {
-		f, err := fakemysql.Start(fakemysql.Options{Name: fmt.Sprintf("b%d", i), Query: g.handler, NoLog: true})
+		f, err := fakemysql.Start(fakemysql.Options{Name: fmt.Sprintf("b%d", i), Query: g.handler, NoLog: os.Getenv("C39_DEBUG") == ""})
 		if err != nil {
 			return nil, err
 		}
@@ -148,7 +161,59 @@ func newRig() (*rig, error) {
 		return nil, err
 	}
 	g.proxy = p
+	g.nss = nss
+	g.calibrate()
 	return g, nil
+}
+
+// calibrate checks the harness's routing assumption: a 1-row statement of every path is
+// delivered completely and the backends recorded exactly physTables[path].
+func (g *rig) calibrate() {
+	g.mu.Lock()
+	g.recording = true
+	g.mu.Unlock()
+	defer func() {
+		g.mu.Lock()
+		g.recording = false
+		g.stmts = map[int][]stmtRec{}
+		g.mu.Unlock()
+	}()
+	for _, p := range paths {
+		cl, err := e2erig.Dial(g.proxy.Addr, userOf(-1), e2erig.Password, e2erig.DB, 45, 300*time.Second)
+		if err != nil {
+			ev.Fatalf("dial proxy: %v", err)
+		}
+		g.mu.Lock()
+		tag := g.tag + 1
+		g.mu.Unlock()
+		o := g.runStmtKeep(cl, p, "text", 1, 8, true)
+		cl.Close()
+		g.mu.Lock()
+		recs := g.stmts[tag]
+		delete(g.stmts, tag)
+		g.mu.Unlock()
+		var got []string
+		for _, rec := range recs {
+			got = append(got, rec.table)
+		}
+		sort.Strings(got)
+		if o.class != "rows" || !sameSums(o.got, o.expected) || strings.Join(got, ",") != strings.Join(physTables[p], ",") {
+			ev.Fatalf("calibration of path %s failed: class=%s %s, backends saw tables %v, expected %v", p, o.class, o.detail, got, physTables[p])
+		}
+	}
+}
+
+// reset gives the namespace with that limit fresh connection pools (fresh backend connections, empty
+// plan cache): nothing of what earlier statements did to a pooled connection survives.
+func (g *rig) reset(limit int) {
+	for _, ns := range g.nss {
+		if ns.Name != nsName(limit) {
+			continue
+		}
+		if err := g.proxy.ReloadNamespace(ns); err != nil {
+			ev.Fatalf("reload namespace: %v", err)
+		}
+	}
 }
 
 func (g *rig) close() {
@@ -196,6 +261,10 @@ func sqlFor(path string, r, s, tag int, placeholders bool) (string, []int64) {
 
 // runStmt sends one statement on cl and classifies the answer.
 func (g *rig) runStmt(cl *e2erig.Client, path, proto string, r, s int) outcome {
+	return g.runStmtKeep(cl, path, proto, r, s, false)
+}
+
+func (g *rig) runStmtKeep(cl *e2erig.Client, path, proto string, r, s int, keep bool) outcome {
 	g.mu.Lock()
 	g.tag++
 	tag := g.tag
@@ -234,20 +303,23 @@ func (g *rig) runStmt(cl *e2erig.Client, path, proto string, r, s int) outcome {
 		q, _ := sqlFor(path, r, s, tag, false)
 		ri, err = cl.Query(q, onRow)
 	}
-	g.mu.Lock()
-	recs := g.stmts[tag]
-	delete(g.stmts, tag)
-	g.mu.Unlock()
-	o.nStmts = len(recs)
-	for _, rec := range recs {
-		if rec.n > o.maxPer {
-			o.maxPer = rec.n
-		}
-		if rec.n*rowPayload(rec.size) > threshold {
-			o.multiChunk = true
-		}
-		for i := 0; i < rec.n; i++ {
-			o.expected = append(o.expected, fakemysql.RowSum(rec.seed, i, rec.size))
+	// what the backends produce for this statement is known a priori: R rows of S bytes per
+	// physical table of the path (calibrate() checks that table list against the backends'
+	// own records at start-up). The records themselves arrive asynchronously when the
+	// proxy answers without waiting for the backend, so they are not used for the verdict.
+	if !keep {
+		g.mu.Lock()
+		delete(g.stmts, tag)
+		g.mu.Unlock()
+	}
+	tables := physTables[path]
+	o.nStmts = len(tables)
+	o.maxPer = r
+	o.multiChunk = r*rowPayload(s) > threshold
+	for _, t := range tables {
+		seed := seedOf(tag, t)
+		for i := 0; i < r; i++ {
+			o.expected = append(o.expected, fakemysql.RowSum(seed, i, s))
 		}
 	}
 	sort.Slice(o.expected, func(i, j int) bool { return o.expected[i] < o.expected[j] })
@@ -330,9 +402,6 @@ func judge(limit int, o outcome) string {
 		if limit > 0 && o.maxPer > limit {
 			return ""
 		}
-		if o.nStmts == 0 {
-			return "" // rejected before reaching a backend: nothing was produced
-		}
 		if limit < 0 && o.multiChunk {
 			// no row limit to promise delivery against: "or the client receives an error"
 			return ""
@@ -383,6 +452,14 @@ func (g *rig) attempt(c Case) (main outcome, fs []finding) {
 	if k := judge(c.Limit, po); k != "" {
 		fs = append(fs, finding{"probe", k, po, pr})
 	}
+	if os.Getenv("C39_DEBUG") != "" {
+		for i, f := range g.fakes {
+			for _, e := range f.Log() {
+				fmt.Fprintf(os.Stderr, "fake%d #%d conn=%d %s %q rej=%q sent=%d\n", i, e.Seq, e.Conn, e.Kind, e.SQL, e.Rejected, e.RowsSent)
+			}
+		}
+		fmt.Fprintf(os.Stderr, "attempt -> main=%s/%s probe=%s/%s\n", main.class, main.detail, po.class, po.detail)
+	}
 	return main, fs
 }
 
@@ -394,13 +471,12 @@ func sig(fs []finding) string {
 	return sb.String()
 }
 
-// runCase runs the case on the shared rig. If the oracle fires, the case is re-run on
-// FRESH rigs (new proxy, new backends: no state carried over from earlier cases): 4 more
-// times (2 in the quick tier for results above 8 MiB). The fresh runs must agree with
-// each other (else engine error); their verdict is the case's verdict. The shared rig is
-// replaced afterwards, so that a connection left in a bad state cannot affect later cases.
-func runCase(r *ev.Run, gp **rig, c Case) (key string) {
-	g := *gp
+// runCase runs the case. If the oracle fires, the case is re-run after a reset of the rig
+// (fresh pools and backend connections: no state carried over from earlier cases) 4 more
+// times (2 in the quick tier for results above 8 MiB). The fresh runs must agree with each
+// other (else engine error); their verdict is the case's verdict. The rig is reset again
+// afterwards, so that a connection left in a bad state cannot affect later cases.
+func runCase(r *ev.Run, g *rig, c Case) (key string) {
 	main, fs := g.attempt(c)
 	if len(fs) > 0 {
 		more := 4
@@ -410,28 +486,19 @@ func runCase(r *ev.Run, gp **rig, c Case) (key string) {
 		var fresh []finding
 		var fmain outcome
 		for i := 0; i < more; i++ {
-			fg, err := newRig()
-			if err != nil {
-				ev.Fatalf("rig: %v", err)
-			}
-			m2, f2 := fg.attempt(c)
-			fg.close()
+			g.reset(c.Limit)
+			m2, f2 := g.attempt(c)
 			if i == 0 {
 				fresh, fmain = f2, m2
 			} else if sig(f2) != sig(fresh) {
-				ev.Fatalf("case %s: verdict not reproducible on fresh rigs: %q vs %q", c, sig(fresh), sig(f2))
+				ev.Fatalf("case %s: verdict not reproducible on fresh pools: %q vs %q", c, sig(fresh), sig(f2))
 			}
 		}
 		if sig(fresh) != sig(fs) {
-			r.Add("verdicts_changed_on_fresh_rig", 1)
+			r.Add("verdicts_changed_on_fresh_pools", 1)
 		}
 		fs, main = fresh, fmain
-		g.close()
-		ng, err := newRig()
-		if err != nil {
-			ev.Fatalf("rig: %v", err)
-		}
-		*gp = ng
+		g.reset(c.Limit)
 	}
 	for _, f := range fs {
 		o := f.o
@@ -514,7 +581,7 @@ func universe(thorough bool) []Case {
 	} else {
 		// quick: one > 16 MiB result per path (text; binary on the unsharded path too) and
 		// one limit-with-streaming case
-		q := []pp{{"unsharded", "text"}, {"unsharded", "binary"}, {"shard1", "text"}, {"shard2slices", "text"}, {"shard2tables", "text"}}
+		q := []pp{{"unsharded", "binary"}, {"shard1", "text"}, {"shard2slices", "text"}, {"shard2tables", "text"}}
 		add([]pp{{"unsharded", "text"}, {"shard2slices", "binary"}}, -1, 10001, 1, "unlimited: more rows than the default limit 10000")
 		add(q, -1, 17, MiB, "16 MiB threshold")
 		add([]pp{{"unsharded", "text"}}, -1, 33, MiB, "16 MiB threshold, three chunks")
@@ -533,7 +600,7 @@ func main() {
 		if err != nil {
 			ev.Fatalf("rig: %v", err)
 		}
-		key := runCase(r, &g, rc)
+		key := runCase(r, g, rc)
 		fmt.Println("replay:", rc, "->", key)
 		g.close()
 		r.Finish()
@@ -551,7 +618,7 @@ func main() {
 			break
 		}
 		t0 := time.Now()
-		key := runCase(r, &g, c)
+		key := runCase(r, g, c)
 		if d := time.Since(t0); d > 100*time.Millisecond && os.Getenv("VERIF_C39_TIMING") != "" {
 			fmt.Fprintf(os.Stderr, "slow %.1fs %s -> %s\n", d.Seconds(), c, key)
 		}
